@@ -19,7 +19,8 @@ AA = "abtem.antialias"
 CX = "abtem.core.complex"
 
 REAL_ATTRS = {"_valid_gpts", "_valid_sampling", "_valid_energy", "base_tilt", "tilt", "gpts", "sampling", "energy",
-              "slice_thickness", "extent", "thickness", "wavelength"}
+              "slice_thickness", "extent", "thickness", "wavelength", "_valid_extent", "reciprocal_space_sampling",
+              "angular_sampling"}
 OPAQUE_ATTRS = {"device", "ensemble_axes_metadata", "is_lazy", "accelerator", "grid", "metadata"}
 
 
@@ -566,3 +567,81 @@ def run(ctx) -> None:  # noqa: F811
     n += _check_finite(ctx, ts, zero_params={arr_p}, nonzero_params={en_p})
     ctx.require(n >= 5, f"R-FINITE examined only {n} phases")
     _inner_run_c04_sweep(ctx)
+
+
+# ---- added after the seeded change C04-r5seed0: the kernels are sampled on the frequency grid of the wave
+_inner_run_c04_kind = run
+
+GRID = "abtem.core.grid"
+
+
+def _check_sampling_kind(ctx) -> None:
+    from ..rules import gridkind as K
+
+    repo = ctx.repo
+    grid = repo.cls(GRID, "Grid")
+    eng = K.Engine(repo, grid, "gpts", "sampling")
+    ctx.require(bool(eng.relations), f"{grid.qualname}: no relation between extent, gpts and sampling could be derived from "
+                "the stores of the class")
+    for lhs, k, callee, st in eng.equations:
+        ctx.ok("R-SAMPLINGKIND", f"{callee.qualname}:store {lhs}", callee.loc(st),
+               f"unit relation derived from the definition: {lhs} = {k.describe()}", nontrivial=False)
+    entries = [repo.method(MS, "FresnelPropagator", "_calculate_array"), repo.method(AA, "AntialiasAperture", "get_array")]
+    n_sites = 0
+    for f in entries:
+        fr = K.Frame(eng, f, self_cls=f.cls)
+        sites = eng.sites(fr)
+        ctx.require(len(sites) >= 1, f"{f.qualname}: no frequency grid is built on the way to the kernel")
+        total: dict[str, int] = {}
+        for s in sites:
+            path = ">".join(c.name for c in s.chain) or "(inline)"
+            total[path] = total.get(path, 0) + 1
+        seen: dict[str, int] = {}
+        for s in sites:
+            path = ">".join(c.name for c in s.chain) or "(inline)"
+            seen[path] = seen.get(path, 0) + 1
+            tag = path + (f"#{seen[path]}" if total[path] > 1 else "")
+            where = f.loc(s.entry_call) if s.entry_call is not None else f.loc(s.call)
+            n_sites += 1
+            for role, thunk, want, unit in (("spacing", s.d, eng.spacing, "the real-space sampling of the grid"),
+                                            ("count", s.n, eng.px, "the number of grid points")):
+                k = eng.force(thunk)
+                cons = f"{f.qualname}:{tag}:frequency-grid {role}"
+                if k == want:
+                    ctx.ok("R-SAMPLINGKIND", cons, where, f"fftfreq {role} has kind {k.describe()} ({unit})")
+                    continue
+                if not k.mono:
+                    raise AnalysisError(f"{cons}: the {role} handed to fftfreq is a pure number (frequencies per pixel); "
+                                        "whether they are rescaled to the grid of the wave afterwards is not followed")
+                if not eng.decidable(k):
+                    raise AnalysisError(f"{cons}: cannot decide whether {k.describe()} is {want.describe()}: a grid "
+                                        "quantity in it has no derived relation to the others")
+                ctx.violation("R-SAMPLINGKIND", cons, where,
+                              f"the {role} that reaches fftfreq through {path.replace('>', ' -> ')} has kind "
+                              f"{k.describe()}, not {want.describe()} ({unit}): the kernel built here is not sampled at the "
+                              "frequencies i/(n·d) of the wave array it multiplies, so the band limit / phase is applied "
+                              "at the wrong frequencies whenever the two grid axes differ (a wave inside the antialiasing "
+                              "aperture loses intensity in vacuum; the factors of the propagator no longer share one "
+                              "frequency grid)", key_detail=role)
+    ctx.require(n_sites >= 4, f"R-SAMPLINGKIND saw only {n_sites} frequency grids")
+
+
+def run(ctx) -> None:  # noqa: F811
+    from ..rules import deferred
+
+    ctx.rule("R-SAMPLINGKIND", "kind (unit) analysis of the grid quantities that reach a frequency grid: every "
+             "fftfreq(n, d) that is reached from FresnelPropagator._calculate_array and AntialiasAperture.get_array through "
+             "calls of repo functions (propagator array, antialias aperture, tilt factor) receives, in that calling "
+             "context, a count n of the kind of Grid.gpts and a spacing d of the kind of Grid.sampling.  Kinds are "
+             "monomials over the storage slots of Grid, decided by propagation over DEFINITIONS: a property has the kind "
+             "its getter returns through the MRO of the object's class (reciprocal_space_sampling = 1/(gpts·sampling), "
+             "_valid_sampling = sampling, angular_sampling = reciprocal sampling · wavelength), a local the kind of its "
+             "reaching definitions, a parameter the kind of the caller's argument; extent = gpts·sampling is derived from "
+             "the stores of Grid itself.  Parameter names and docstrings are never consulted.  The kernel multiplies the "
+             "FFT of an array sampled with Grid.sampling, whose component i belongs to the frequency i/(n·d): a mask or "
+             "phase evaluated on frequencies of another kind is applied at the wrong frequencies, the aperture is then "
+             "narrower than the antialiasing aperture along one axis and vacuum propagation loses intensity")
+    ctx.assume("array shapes and len() count grid points (the unit of Grid.gpts); sequences of grid quantities are "
+               "homogeneous in kind")
+    ctx.undecided("frequency grids built in units of cycles per pixel (fftfreq without a spacing) and rescaled later")
+    deferred.run(ctx, lambda: _check_sampling_kind(ctx), _inner_run_c04_kind)
